@@ -167,6 +167,14 @@ def rejected_calls(res, rng):
             sh = list(c.shape); sh = sh[:1] + [sh[1] + 1] + ([2] if kind == "tt" else []) + sh[2:] if kind == "tt" else [sh[0], sh[1] + 1, sh[-1]]
             bad.append(("wrong-dims", k, sh))
             bad.append(("position", len(x.cores), list(c.shape)))
+            # negative positions (not accepted: InvalidArguments).  If an implementation does accept them it must address core d+k with the
+            # ranks of THAT core: offer both the fitting core and the cores that fit the neighbouring bonds of the (d+1)-long rank list
+            Rl = [int(r) for r in x.R]
+            for kn in range(-d, 0):
+                kp = d + kn
+                mid = list(x.cores[kp].shape[1:-1])
+                bad.append(("negative-position-fitting", kn, [Rl[kp]] + mid + [Rl[kp + 1]]))
+                bad.append(("negative-position-shifted", kn, [Rl[kn]] + [m + 1 for m in mid] + [Rl[kn + 1]]))
             for what, kk, shp in bad:
                 before = (meta_str(x), [cc.clone() for cc in x.cores], [id(cc) for cc in x.cores])
                 try:
@@ -189,7 +197,9 @@ def rejected_calls(res, rng):
                         msg = wf_violation(x)
                 else:
                     msg = wf_violation(x)
-                    if msg is None and what != "position":
+                    if msg is None and what == "negative-position-fitting":
+                        pass          # accepted with the fitting core and still well formed: nothing to report
+                    elif msg is None and what != "position":
                         msg = "set_core accepted a core that does not fit (%s) without raising" % what
                 if msg:
                     res.violation({"property": "C05", "kind": "oracle-failure", "class": cls,
